@@ -6,6 +6,10 @@ import sched_run
 
 
 def run(ctx):
+    if ctx.replay:
+        ctx.rule = "replay of one recorded case"
+        sched_run.replay_stream(ctx, ctx.replay)
+        return
     ctx.rule = ("pool program x every (primitive, cursor, args) attempt of harness/stream.py; an evaluation = one "
                 "procedure returned by a real scheduling operation, checked by the Lean well-formedness predicate "
                 "(ExoModel.Wf.wfP: scopes, kinds, ranks, arities), executed before/after in the Lean reference "
